@@ -17,7 +17,7 @@ DELIM = set(" \t\n\r|()\";")
 
 
 # ------------------------------------------------------------------ (a) trees and layouts
-PECULIAR = ["+", "-", "...", "->", "+a", "-a", ".a", "..", "a.b", "<=?", "!x", "a1", "set!", "x->y", "+-", "-+1a" if False else "--", "a+b", "$%&*/:<=>?^_~"]
+PECULIAR = ["+inf", "-inf", "+nan", "-nan", "+infinity", "-Inf", "+NaN", "+info", "-nano", "+inf.", "+", "-", "...", "->", "+a", "-a", ".a", "..", "a.b", "<=?", "!x", "a1", "set!", "x->y", "+-", "-+1a" if False else "--", "a+b", "$%&*/:<=>?^_~"]
 
 
 def rand_atom(rng):
